@@ -68,7 +68,9 @@ func (t *Tax) Normalize(normalizers tax.Normalizers) {
 // ValidateWithContext ensures the tax details look valid.
 func (t *Tax) ValidateWithContext(ctx context.Context) error {
 	return tax.ValidateStructWithContext(ctx, t,
-		validation.Field(&t.PricesInclude),
+		validation.Field(&t.PricesInclude,
+			tax.RegimeDefFromContext(ctx).InCategories(),
+		),
 		validation.Field(&t.Rounding,
 			cbc.InKeyDefs(tax.RoundingRules),
 		),
